@@ -789,6 +789,41 @@ $GEN{$NF(n int, g int)}{int}{
 	}
 	$RET
 }`},
+	// rows x columns scan: the inner loop has no initialiser and is the first statement of the outer body, so the
+	// optimised code holds ONE inner loop value that is run once per row; most rows yield nothing
+	{name: "rows-cols-inner-loop-value-rerun", decls: `
+$GEN{$NF(n int, g int)}{int}{
+	i, col := 0, 0
+	for i < n {
+		for col < 3 && i < n {
+			tr.Probe(1)
+			j := i
+			i++
+			col++
+			if j%g == 0 {
+				$YIELD{j}
+			}
+		}
+		col = 0
+	}
+	$RET
+}`},
+	{name: "rows-cols-post-resets-3-levels", decls: `
+$GEN{$NF(n int, g int)}{int}{
+	i, col, row := 0, 0, 0
+	for ; i < n; row, col = 0, 0 {
+		for ; row < 2 && i < n; row, col = row+1, 0 {
+			for ; col < 3 && i < n; col++ {
+				tr.Probe(1)
+				if i%g == 0 {
+					$YIELD{i}
+				}
+				i++
+			}
+		}
+	}
+	$RET
+}`},
 	{name: "filter-over-iterator", decls: `
 $GEN{$NSrc(n int)}{int}{
 	for i := 0; i < n; i++ {
@@ -825,7 +860,7 @@ const stackSlackT = 24
 
 func init() {
 	checks["C17"] = &checkT{run: func(rs *runState) {
-		rs.rule("compiled loops {3-clause with continue, 3-clause with if, condition-only, infinite with break and a yielding switch, range over int, range over slice, nested loops, filter over another iterator} " +
+		rs.rule("compiled loops {3-clause with continue, 3-clause with if, condition-only, infinite with break and a yielding switch, range over int, range over slice, nested loops, init-less inner loops that the optimiser turns into one re-run loop value (2 and 3 levels), filter over another iterator} " +
 			"x gap g in {1,10,100,1000,10000} (thorough: 10^6) x delegation depth {0,1,4,8}; a depth probe (runtime.Callers) runs in every iteration; oracle: deepest probe - first probe <= 24 frames independent of g, " +
 			"and the yielded values equal the reference's; non-trivial = g >= 100; distinct by (shape, g, depth)")
 		gaps := []int{1, 10, 100, 1000, 10000}
